@@ -41,11 +41,24 @@ var c06refs = []c06ref{
 	{"svc-last-field-svc", "service", `"svcMulti"`, "uSeventeen", "goneSeventeen"},
 }
 
+// c06missing: the undeclared name used at position i. Variant 4: the name is declared, but in the other
+// namespace (a parameter reference names a declared service and the other way round).
+func c06missing(i, variant int) string {
+	r := c06refs[i]
+	if variant == 4 {
+		if r.kind == "param" {
+			return "uEight"
+		}
+		return "tOne"
+	}
+	return r.missing
+}
+
 func c06build(dangling uint, variant int) *Cfg {
 	name := func(i int) string {
 		r := c06refs[i]
 		if dangling&(1<<uint(i)) != 0 {
-			return r.missing
+			return c06missing(i, variant)
 		}
 		return r.target
 	}
@@ -60,11 +73,17 @@ func c06build(dangling uint, variant int) *Cfg {
 			if variant == 2 {
 				v = `%todo("later")%`
 			}
+			if variant == 5 {
+				v = nil // a parameter whose value is null is declared
+			}
 			c.Params = append(c.Params, Param{r.target, v})
 		} else {
 			s := Service{Name: r.target, Constructor: P("NewThing")}
-			if variant >= 1 {
+			if variant == 1 || variant == 2 {
 				s = Service{Name: r.target, Todo: P(true)}
+			}
+			if variant == 5 {
+				s = Service{Name: r.target, Value: P("nil"), Todo: P(false)}
 			}
 			c.Services = append(c.Services, s)
 		}
@@ -100,7 +119,7 @@ func init() {
 	Register(&Check{
 		ID:    "C06",
 		Level: "exploration",
-		Rule: "every subset of the 17 reference positions (param->param single chunk / multi-chunk / after %%; service ctor, call, field, wither multi-chunk -> param; a reference after a function chunk in a parameter and in a service argument; non-first arguments of several calls followed by fields; decorator -> param; service ctor, call, field -> service; decorator -> service) made dangling, x 3 declared-ness variants of the targets (literal / %todo()% + todo:true / %todo(\"msg\")%); " +
+		Rule: "every subset of the 17 reference positions (param->param single chunk / multi-chunk / after %%; service ctor, call, field, wither multi-chunk -> param; a reference after a function chunk in a parameter and in a service argument; non-first arguments of several calls followed by fields; decorator -> param; service ctor, call, field -> service; decorator -> service) made dangling, x 5 variants (targets declared as literal / %todo()% + todo:true / %todo(\"msg\")% / null-valued parameters + value services; undeclared names that are declared in the other namespace); " +
 			"non-trivial = at least one reference dangling; distinct = distinct (subset, variant)",
 		Assumptions: []string{
 			"diagnostics are matched by content: rule prefix (output.ValidateParamsExist / output.ValidateServicesExist), the referrer token and the quoted missing name; multiplicity is not compared",
@@ -158,7 +177,7 @@ func init() {
 					}
 				})
 			}
-			for variant := 0; variant < 3; variant++ {
+			for _, variant := range []int{0, 1, 2, 4, 5} {
 				for set := uint(0); set < 1<<uint(n); set++ {
 					if w.Env.Quick() {
 						// quick: every subset of size <= 3 and every complement of one (thorough: all 2^17)
@@ -220,12 +239,12 @@ func init() {
 							}
 							found := false
 							for _, l := range LinesWithPrefix(lines, prefix) {
-								if strings.Contains(l, r.referrer) && strings.Contains(l, `"`+r.missing+`"`) && strings.Contains(l, "does not exist") {
+								if strings.Contains(l, r.referrer) && strings.Contains(l, `"`+c06missing(i, variant)+`"`) && strings.Contains(l, "does not exist") {
 									found = true
 								}
 							}
 							if !found {
-								c.Violation("unreported:"+r.id, fmt.Sprintf("dangling reference %s (%s -> %s) not reported by %s naming referrer %s\n%s", r.id, r.referrer, r.missing, prefix, r.referrer, br.Out), FilesMap(files), nil)
+								c.Violation("unreported:"+r.id, fmt.Sprintf("dangling reference %s (%s -> %s) not reported by %s naming referrer %s\n%s", r.id, r.referrer, c06missing(i, variant), prefix, r.referrer, br.Out), FilesMap(files), nil)
 							}
 						}
 						// soundness: nothing declared / not dangling is reported; no other class of error
@@ -236,7 +255,11 @@ func init() {
 							}
 							ok := false
 							for i := 0; i < n; i++ {
-								if set&(1<<uint(i)) != 0 && strings.Contains(l, `"`+c06refs[i].missing+`"`) {
+								wantPrefix := "output.ValidateParamsExist:"
+								if c06refs[i].kind == "service" {
+									wantPrefix = "output.ValidateServicesExist:"
+								}
+								if set&(1<<uint(i)) != 0 && strings.HasPrefix(l, wantPrefix) && strings.Contains(l, `"`+c06missing(i, variant)+`"`) {
 									ok = true
 								}
 							}
